@@ -180,6 +180,12 @@ func (e *Engine) reportFindingInQuery(st *State, kind, label, site string) {
 	f.Inputs = e.modelFromCurrent(st)
 	if f.Inputs == nil {
 		f.Status = "no-model"
+		// another path may yield a model for the same assertion
+		delete(e.findKey, key)
+		if e.noModel[key] {
+			return
+		}
+		e.noModel[key] = true
 	}
 	e.res.Findings = append(e.res.Findings, f)
 }
